@@ -896,6 +896,45 @@ func (env *SpecEnv) quant(isForall bool, n *ast.CallExpr) Val {
 						return false
 					}
 				}
+				if m, ok := env.e.W.macros[fid.Name]; ok && len(m.Params) == len(ie.Args) {
+					// a macro that indexes one of its parameters by another (zx[zk]): applied to (x, k) it anchors
+					// the quantifier like x[k] written out (without this the body gets no trigger at all)
+					ast.Inspect(m.Body, func(y ast.Node) bool {
+						if anchorX != nil {
+							return false
+						}
+						mi, ok := y.(*ast.IndexExpr)
+						if !ok {
+							return true
+						}
+						xs, ok1 := mi.X.(*ast.Ident)
+						ks, ok2 := mi.Index.(*ast.Ident)
+						if !ok1 || !ok2 {
+							return true
+						}
+						xi, ki := -1, -1
+						for pi, pn := range m.Params {
+							if pn == xs.Name {
+								xi = pi
+							}
+							if pn == ks.Name {
+								ki = pi
+							}
+						}
+						if xi < 0 || ki < 0 || mentions(ie.Args[xi], k) {
+							return true
+						}
+						if ok, c, ng := shape(ie.Args[ki]); ok {
+							anchorX, anchorC, neg = ie.Args[xi], c, ng
+							anchorOld = inOld
+							return false
+						}
+						return true
+					})
+					if anchorX != nil {
+						return false
+					}
+				}
 				if sf, ok := env.e.W.specFuncs[fid.Name]; ok && len(sf.Params) == len(ie.Args) {
 					for pi, p := range sf.Params {
 						if p.Type != "pos" {
